@@ -48,11 +48,10 @@ ASSUMPTIONS = [
 
 # signatures of defects confirmed on the unchanged repository: reported once per run by the deterministic
 # part, excluded-and-counted inside the Hypothesis search so that it continues behind them
-CONFIRMED = {
-    "C19:luba-length-overrun",
-    "C19:luba-observed-unknown-command-dropped",
-    "C19:sci-observed-unknown-command-dropped",
-}
+# All three defects found at the pinned commit (luba-length-overrun, luba/sci-observed-unknown-command-dropped)
+# have been repaired in /repo (see KNOWN_FINDINGS.txt "fixed:" lines), so nothing is excluded any more: if one
+# returns it is reported by the deterministic sweep, by the Hypothesis search and by its regression replay.
+CONFIRMED = set()
 
 LUBA_HOST_CODES = [0x2A, 0x2C, 0x2D, 0x20, 0x32, 0x34, 0x35, 0x36, 0x37]
 LUBA_UNKNOWN_CODES = [c for c in range(256) if c not in RW.LUBA_CMDS]
